@@ -194,6 +194,38 @@ TS_FNS = {'state3': _ts_from_state}
 COND_FNS = {'state3': _cond_from_state}
 
 
+class DirectorProbe(ProbeProcess):
+    """A probe whose updates may carry a structural operation on the top-level
+    process set: parameters['sops'][k] is the operation of its k-th update
+    ({'op': 'del', 'q': name} | {'op': 'add', 'q': name, 'cfg': {...}} | None)."""
+    defaults = dict(ProbeProcess.defaults, sops=[])
+
+    def ports_schema(self):
+        sch = super().ports_schema()
+        sch['root'] = {'_output': True}
+        return sch
+
+    def next_update(self, timestep, states):
+        k = self.i_inv
+        upd = super().next_update(timestep, states)
+        sops = self.parameters['sops']
+        op = sops[k] if k < len(sops) else None
+        if op:
+            if op['op'] == 'del':
+                upd['root'] = {'_delete': [op['q']]}
+            else:
+                cfg = dict(op['cfg'])
+                cfg['pid'] = op['q']
+                upd['root'] = {'_generate': [{
+                    'processes': {op['q']: ProbeProcess(cfg)},
+                    'topology': {op['q']: {'v': ('v',)}},
+                    'initial_state': {}}]}
+            if not self.parameters['silent']:
+                REC.add('sop', self.pid, op['op'], op['q'],
+                        list(op['cfg']['vars']) if op['op'] == 'add' else [])
+        return upd
+
+
 class ProbeStep(Step):
     """A step that adds 1 to its own counter and records what it sees."""
     defaults = {'pid': 's', 'vars': [], 'emit': True, 'silent': False}
